@@ -21,7 +21,7 @@ from ..kernel import RunResult, summarize, exception_origin, exception_site
 PROPERTY = "C09"
 LEVEL = "exploration"
 ABSTRACT_WIDTH = 3
-N_RUNS = {"quick": 250000, "thorough": 3000000}
+N_RUNS = {"quick": 250000, "thorough": 9000000}
 RULE = ("each run draws one framework accumulator with its constructor arguments (Count, Sum, "
         "DSum with start values; Mean plain / pass_on_empty / over Sum / over DSum; "
         "VarianceMeanCount corrected or not, pass_on_empty; Vectorize over Sum, DSum, Mean, Count "
